@@ -201,12 +201,28 @@ func (p *Pool) Solve(q *Query) (res Result) {
 	sb.WriteString("\n(check-sat)\n")
 	fmt.Fprintf(&sb, "(echo \"%s\")\n", sent)
 	deadline := time.Now().Add(to + 2*time.Second)
-	if _, err := io.WriteString(s.in, sb.String()); err != nil {
-		s.kill()
-		res.Raw = "write: " + err.Error()
-		return res
-	}
+	// write concurrently with reading: a solver that prints a lot (errors, warnings) while we are
+	// still writing would otherwise dead-lock on full pipes
+	werr := make(chan error, 1)
+	go func() {
+		_, err := io.WriteString(s.in, sb.String())
+		werr <- err
+	}()
 	text, ok := s.readUntil(sent, deadline)
+	select {
+	case err := <-werr:
+		if err != nil && ok {
+			ok = false
+			text += "\nwrite: " + err.Error()
+		}
+	default:
+		if !ok {
+			// writer still blocked: the kill in readUntil unblocks it
+			go func() { <-werr }()
+		} else {
+			<-werr
+		}
+	}
 	res.Raw = text
 	if !ok {
 		s.kill()
